@@ -110,3 +110,60 @@ def parse (o : Opts) (obj : Obj) : Except PErr Def := do
   pure d
 
 end Gv.Signature
+
+namespace Gv.Signature
+open Gv.Str
+
+/-- who parses a function signature: the converter method itself, an `extend` function, a `map … | FUNC`
+function, a `default` constructor, a method of the source struct used as a field source -/
+inductive Consumer | converterMethod | extend | mapFunc | dflt | structMethod
+  deriving Repr, DecidableEq, Inhabited
+
+/-- at which level the `arg:context:regex` a consumer uses is resolved -/
+inductive RegexScope | method | converter | fixedAll
+  deriving Repr, DecidableEq, Inhabited
+
+def Consumer.scope : Consumer → RegexScope
+  | .converterMethod => .method | .mapFunc => .method | .dflt => .method
+  | .extend => .converter
+  | .structMethod => .fixedAll
+
+/-- the pattern a consumer classifies context parameters with, given the three levels a user can write it on
+(inheritance of C12: method, else converter, else command line) -/
+def effPattern (k : Consumer) (cli conv meth : Option S) : Option S :=
+  match k.scope with
+  | .method => meth <|> conv <|> cli
+  | .converter => conv <|> cli
+  | .fixedAll => some ".*".toList
+
+/-- the parsing profile of a consumer (`updateParam` / local contexts exist for the converter method only) -/
+def consumerOpts (k : Consumer) (updateParam : S) (localContext : List S) : Opts :=
+  match k with
+  | .converterMethod => { params := .required, updateParam := updateParam, localContext := localContext }
+  | .extend => { params := .required }
+  | .mapFunc => { params := .optional, allowTypeParams := true }
+  | .dflt => { params := .optional, allowTypeParams := true }
+  | .structMethod => { params := .none }
+
+/-- does the consumer recognise a parameter of the converter's own type (`Converter:` set)? -/
+def Consumer.seesConverter : Consumer → Bool
+  | .extend | .mapFunc | .dflt => true
+  | _ => false
+
+/-- the text of the `method.ParseOpts` literal a consumer must be written with (tie: Facts.parseOptsSites) -/
+def Consumer.site (k : Consumer) : String :=
+  let o := consumerOpts k [] []
+  let loc := match k with
+    | .converterMethod => "method.go:parseMethod" | .extend => "converter.go:parseConverterLine"
+    | .mapFunc => "method.go:parseMethodLine" | .dflt => "method.go:parseMethodLine" | .structMethod => "struct.go:mapField"
+  let params := match o.params with | .required => "method.ParamsRequired" | .optional => "method.ParamsOptional" | .none => "method.ParamsNone"
+  let ctx := match k.scope with | .method => "m.ArgContextRegex" | .converter => "c.ArgContextRegex" | .fixedAll => "config.StructMethodContextRegex"
+  let conv := if k.seesConverter then "c.typeForMethod()" else "nil"
+  let gen := if k == .converterMethod then "true" else "false"
+  let upd := if k == .converterMethod then "m.updateParam" else "\"\""
+  loc ++ "|params=" ++ params ++ "|ctx=" ++ ctx ++ "|tp=" ++ toString o.allowTypeParams ++ "|conv=" ++ conv ++
+    "|generated=" ++ gen ++ "|update=" ++ upd ++ "|multi=" ++ toString o.multiSource
+
+def allConsumers : List Consumer := [.extend, .mapFunc, .dflt, .converterMethod, .structMethod]
+
+end Gv.Signature
